@@ -3,6 +3,7 @@
 From Coq Require Import String List NArith Bool Arith.
 From CMinx Require Import Base.Str Extract.Tree
      Model.Lexer Model.Parser Model.Writer Model.DocTypes Model.Aggregator Model.Pipeline
+     Model.Path Model.Naming Model.Walk
      Spec.Projections.
 Import ListNotations.
 
@@ -126,6 +127,48 @@ Definition e_agg_result (r : option (result agg)) : tree :=
   | Some (Ok st) => L [I 0%N; e_list e_entry (documented st); e_list e_bool (origins st)]
   end.
 
+(* node = [0; name; bytes] | [1; name; children] *)
+Fixpoint d_node_fuel (fuel : nat) (t : tree) : node :=
+  match fuel with
+  | O => F [] []
+  | S f =>
+      let a := d_items t in
+      match d_nat (d_arg 0 a) with
+      | 0 => F (d_str (d_arg 1 a)) (d_list d_n (d_arg 2 a))
+      | _ => D (d_str (d_arg 1 a)) (map (d_node_fuel f) (d_items (d_arg 2 a)))
+      end
+  end.
+Definition d_node (t : tree) : node := d_node_fuel 64 t.
+
+Definition d_kind (t : tree) : input_kind :=
+  let a := d_items t in
+  match d_nat (d_arg 0 a) with
+  | 0 => KMissing
+  | 1 => KFile (d_list d_n (d_arg 1 a))
+  | _ => KDir (map d_node (d_items (d_arg 1 a)))
+  end.
+
+(* [out; recursive; prefix option; auto_exclude; sep; ext_titles; ext_modules] *)
+Definition d_wsettings (t : tree) : wsettings :=
+  let a := d_items t in
+  {| ws_out := d_bool (d_arg 0 a); ws_recursive := d_bool (d_arg 1 a);
+     ws_prefix := d_opt d_str (d_arg 2 a); ws_auto_exclude := d_bool (d_arg 3 a);
+     ws_sep := d_str (d_arg 4 a); ws_ext_titles := d_bool (d_arg 5 a);
+     ws_ext_modules := d_bool (d_arg 6 a) |}.
+
+(* exclusion oracle as a finite table of excluded (relative path, is directory) *)
+Definition excl_of_table (tbl : list (list str * bool)) (rel : list str) (isdir : bool) : bool :=
+  existsb (fun e => strs_eqb (fst e) rel && Bool.eqb (snd e) isdir) tbl.
+
+Definition e_action (a : action) : tree :=
+  match a with
+  | AMkDirs rel => L [I 0%N; e_list e_str rel]
+  | AWrite rel c => L [I 1%N; e_list e_str rel; e_str c]
+  | APrint c => L [I 2%N; e_str c]
+  | AAbort o => L [I 3%N; e_outcome o]
+  | AExit255 => L [I 4%N]
+  end.
+
 Definition dispatch_base (fid : nat) (a : list tree) : option tree :=
   match fid with
   | 1 => Some (e_str (clean_doc_lines (d_list d_str (d_arg 0 a))))
@@ -189,5 +232,19 @@ Definition dispatch_base (fid : nat) (a : list tree) : option tree :=
                                   end
                     end
                 end)
+  | 11 => (* document(): [wsettings; psettings; cwd; input spelling; kind; excl table] *)
+          let ws := d_wsettings (d_arg 0 a) in
+          let st := d_psettings (d_arg 1 a) in
+          let base := basename (abspath (d_str (d_arg 2 a)) (d_str (d_arg 3 a))) in
+          let docfn := document_bytes (ps_flags st) (ps_trigger st) (table_fn (ps_fn st))
+                         (table_fn (ps_mac st)) (table_fn (ps_mem st)) (ps_hdrs st) in
+          let tbl := d_list (d_pair (d_list d_str) d_bool) (d_arg 5 a) in
+          Some (e_list e_action (document ws (ps_hdrs st) docfn (excl_of_table tbl) base
+                                          (d_kind (d_arg 4 a))))
+  | 12 => Some (L [e_str (normpath (d_str (d_arg 0 a)));
+                   e_str (abspath (d_str (d_arg 1 a)) (d_str (d_arg 0 a)));
+                   e_str (basename (d_str (d_arg 0 a)));
+                   e_str (dirname (d_str (d_arg 0 a)));
+                   e_str (relpath_abs (d_str (d_arg 0 a)) (d_str (d_arg 1 a)))])
   | _ => None
   end.
